@@ -1,7 +1,7 @@
 """C14 - opening or merging many files yields their concatenation."""
 import ast
 
-from ..model import AnalysisError, callee, norm, src, walk_no_nested, iter_child_stmts, kwarg
+from ..model import AnalysisError, callee, norm, src, walk_no_nested, iter_child_stmts, kwarg, before
 from ..cfg import CFG, ReachingDefs
 from . import meta_rules
 
@@ -22,32 +22,7 @@ def run(ctx):
     f = ut.func('metadata_from_many')
     cfg = CFG(f)
     rd = ReachingDefs(cfg)
-    # R14.1
-    sel = [s for s in iter_child_stmts(f.body) if isinstance(s, ast.If) and 'verify_schema' in norm(s.test) and 'len(file_list)' in norm(s.test)]
-    ok = len(sel) == 1 and isinstance(sel[0].test, ast.BoolOp) and isinstance(sel[0].test.op, ast.Or) and \
-        any(norm(v) == 'verify_schema' for v in sel[0].test.values)
-    ctx.ob('R14.1', 'util.metadata_from_many:verification-request-selects-the-legacy-arm', ok,
-           'arm selection `%s`' % (norm(sel[0].test) if sel else '?'), ut.loc(sel[0]) if sel else ut.loc(f))
-    fast = [s for s in iter_child_stmts(f.body) if isinstance(s, ast.Assign) and norm(s) == 'legacy = False']
-    ok = len(fast) == 1 and bool(sel) and any(x is fast[0] for x in iter_child_stmts(sel[0].orelse))
-    ctx.ob('R14.1', 'util.metadata_from_many:fast-arm-only-without-verification', ok,
-           'legacy = False is assigned only in the else-branch of the selection', ut.loc(fast[0]) if fast else ut.loc(f))
-    leg = [s for s in iter_child_stmts(f.body) if isinstance(s, ast.If) and norm(s.test) == 'legacy']
-    vs = [s for s in iter_child_stmts(f.body) if isinstance(s, ast.If) and norm(s.test) == 'verify_schema']
-    ok = len(leg) == 1 and len(vs) == 1 and vs[0] in leg[0].body
-    if ok:
-        loop = [s for s in vs[0].body if isinstance(s, ast.For)]
-        ok = len(loop) == 1 and norm(loop[0].iter) == 'pfs[1:]' and len(loop[0].body) == 1 and isinstance(loop[0].body[0], ast.If) \
-            and norm(loop[0].body[0].test) in ('pf._schema != pfs[0]._schema', 'pfs[0]._schema != pf._schema') \
-            and isinstance(loop[0].body[0].body[0], ast.Raise)
-    ctx.ob('R14.1', 'util.metadata_from_many:every-file-compared-with-the-first-and-refused', ok,
-           'for pf in pfs[1:]: if pf._schema != pfs[0]._schema: raise', ut.loc(vs[0]) if vs else ut.loc(f))
-    if leg and vs:
-        first_use = [s for s in leg[0].body if 'copy.copy(pfs[0].fmd)' in norm(s)]
-        ctx.ob('R14.1', 'util.metadata_from_many:comparison-precedes-gathering',
-               bool(first_use) and leg[0].body.index(vs[0]) < leg[0].body.index(first_use[0]), '', ut.loc(vs[0]))
-    mixed = [s for s in iter_child_stmts(f.body) if isinstance(s, ast.Raise) and 'all ParquetFile instances or none' in src(s)]
-    ctx.ob('R14.1', 'util.metadata_from_many:mixed-inputs-refused', len(mixed) == 1, '', ut.loc(f))
+    leg, vs = r141(ctx)
 
     # R14.2
     n = meta_rules.filepath_rule(ctx, 'R14.2', only={'util'})
@@ -165,4 +140,38 @@ def r144(ctx, api, wr):
     mg = wr.func('merge')
     ctx.ob('R14.4', 'writer.merge:opens-the-list-with-the-callers-verification-choice',
            'out = ParquetFile(file_list, verify_schema, open_with, root)' in src(mg), '', wr.loc(mg))
+
+
+
+def r141(ctx):
+    ut = ctx.repo['util']
+    f = ut.func('metadata_from_many')
+    cfg = CFG(f)
+    # R14.1
+    sel = [s for s in iter_child_stmts(f.body) if isinstance(s, ast.If) and 'verify_schema' in norm(s.test) and 'len(file_list)' in norm(s.test)]
+    ok = len(sel) == 1 and isinstance(sel[0].test, ast.BoolOp) and isinstance(sel[0].test.op, ast.Or) and \
+        any(norm(v) == 'verify_schema' for v in sel[0].test.values)
+    ctx.ob('R14.1', 'util.metadata_from_many:verification-request-selects-the-legacy-arm', ok,
+           'arm selection `%s`' % (norm(sel[0].test) if sel else '?'), ut.loc(sel[0]) if sel else ut.loc(f))
+    fast = [s for s in iter_child_stmts(f.body) if isinstance(s, ast.Assign) and norm(s) == 'legacy = False']
+    ok = len(fast) == 1 and bool(sel) and any(x is fast[0] for x in iter_child_stmts(sel[0].orelse))
+    ctx.ob('R14.1', 'util.metadata_from_many:fast-arm-only-without-verification', ok,
+           'legacy = False is assigned only in the else-branch of the selection', ut.loc(fast[0]) if fast else ut.loc(f))
+    leg = [s for s in iter_child_stmts(f.body) if isinstance(s, ast.If) and norm(s.test) == 'legacy']
+    vs = [s for s in iter_child_stmts(f.body) if isinstance(s, ast.If) and norm(s.test) == 'verify_schema']
+    ok = len(leg) == 1 and len(vs) == 1 and vs[0] in leg[0].body
+    if ok:
+        loop = [s for s in vs[0].body if isinstance(s, ast.For)]
+        ok = len(loop) == 1 and norm(loop[0].iter) == 'pfs[1:]' and len(loop[0].body) == 1 and isinstance(loop[0].body[0], ast.If) \
+            and norm(loop[0].body[0].test) in ('pf._schema != pfs[0]._schema', 'pfs[0]._schema != pf._schema') \
+            and isinstance(loop[0].body[0].body[0], ast.Raise)
+    ctx.ob('R14.1', 'util.metadata_from_many:every-file-compared-with-the-first-and-refused', ok,
+           'for pf in pfs[1:]: if pf._schema != pfs[0]._schema: raise', ut.loc(vs[0]) if vs else ut.loc(f))
+    if leg and vs:
+        first_use = [s for s in leg[0].body if 'copy.copy(pfs[0].fmd)' in norm(s)]
+        ctx.ob('R14.1', 'util.metadata_from_many:comparison-precedes-gathering',
+               bool(first_use) and before(leg[0].body, vs[0], first_use[0]), '', ut.loc(vs[0]))
+    mixed = [s for s in iter_child_stmts(f.body) if isinstance(s, ast.Raise) and 'all ParquetFile instances or none' in src(s)]
+    ctx.ob('R14.1', 'util.metadata_from_many:mixed-inputs-refused', len(mixed) == 1, '', ut.loc(f))
+    return leg, vs
 
